@@ -138,6 +138,31 @@ def main(argv=None):
                               {"kind": "direct", "text": texts[i], "history": "generate; load+generate 3 other models under alias schemes; get_scheme(aliases); generate again; reload; generate",
                                "functions_first": sorted(impl.export_functions(first)), "functions_again": sorted(impl.export_functions(again))})
                 break
+        # the caller's option objects (the stiff_states list, the missing_values dict) are reused across calls, as a
+        # script that generates numpy, then jax, then C code does: every call must see them as they were given
+        for i in range(min(6, len(texts))):
+            ode = cases[i].ode
+            if ode is None:
+                continue
+            ss_ = [s.name for s in ode.sorted_states()]
+            stiff = ss_[:2] + ["not_a_state"]
+            given = list(stiff)
+            fresh = impl.gen_python(ode, schemes=impl.ALL_SCHEMES, stiff_states=list(given))
+            outs = [impl.gen_python(ode, schemes=impl.ALL_SCHEMES, stiff_states=stiff) for _ in range(2)]
+            try:
+                outs.append(impl.gen_python(ode, schemes=impl.ALL_SCHEMES, stiff_states=stiff, backend="jax"))
+                fresh_jax = impl.gen_python(ode, schemes=impl.ALL_SCHEMES, stiff_states=list(given), backend="jax")
+            except Exception:  # noqa: BLE001
+                fresh_jax = None
+            rep.case(key=("shared-options", i), nontrivial=True)
+            if stiff != given:
+                rep.violation(f"generating code modifies the caller's stiff_states list: {given} became {stiff}",
+                              {"kind": "direct", "text": texts[i], "history": "get_code(..., stiff_states=L) with one list object L"})
+                break
+            if outs[0] != fresh or outs[1] != fresh or (fresh_jax is not None and outs[2] != fresh_jax):
+                rep.violation("generating again with the same stiff_states object gives different code than a first generation",
+                              {"kind": "direct", "text": texts[i], "history": "get_code(..., stiff_states=L) three times (numpy, numpy, jax) with one list object L"})
+                break
         # a scheme function obtained earlier keeps its name
         ode = cases[0].ode
         cg = PythonCodeGenerator(ode, format=Format.none)
